@@ -256,7 +256,7 @@ type round struct {
 }
 
 func (r *round) begin(lastIndex uint64) {
-	r.Ordinal, r.Start, r.LastIndex = r.Ordinal+1, time.Now(), lastIndex
+	r.Ordinal, r.Start, r.End, r.LastIndex = r.Ordinal+1, time.Now(), time.Time{}, lastIndex
 }
 func (r *round) finish()                { r.End = time.Now() }
 func (r *round) finished() bool         { return !r.End.IsZero() }
